@@ -69,7 +69,10 @@ BigSpec == [default_boxed |-> [n |-> 1048576, pat |-> "const", c |-> 0, bytes |-
             boxed_map |-> [n |-> 524288, pat |-> "const", c |-> 3, bytes |-> 4194304],
             \* few, very large elements (one probe value per element is summarised)
             generate_bigelem |-> [n |-> 256, pat |-> "mod1000", c |-> 0, bytes |-> 4194304],
-            default_boxed_bigelem |-> [n |-> 384, pat |-> "const", c |-> 0, bytes |-> 3194880]]
+            default_boxed_bigelem |-> [n |-> 384, pat |-> "const", c |-> 0, bytes |-> 3194880],
+            default_boxed_32x16k |-> [n |-> 32, pat |-> "const", c |-> 0, bytes |-> 524288],
+            generate_8x128k |-> [n |-> 8, pat |-> "mod1000", c |-> 0, bytes |-> 1048576],
+            default_boxed_1x512k |-> [n |-> 1, pat |-> "const", c |-> 0, bytes |-> 524288]]
 ElemAt(s, i) == IF s.pat = "const" THEN s.c ELSE i % 1000           \* 0-based index i
 SumOf(s) == IF s.pat = "const" THEN (s.c * s.n) % 1000003
             ELSE LET q == s.n \div 1000 r == s.n % 1000 IN (q * 499500 + (r * (r - 1)) \div 2) % 1000003
